@@ -96,8 +96,8 @@ Proof. cbn [transform_trefs]. induction p as [|a p IH]; cbn [flat_map]; [reflexi
 Lemma loop_decls p : transform_decls (TLoop p) = flat_map transform_decls p.
 Proof. cbn [transform_decls]. induction p as [|a p IH]; cbn [flat_map]; [reflexivity | rewrite IH; reflexivity]. Qed.
 
-Lemma loop_diags defs w decl vis p :
-  transform_diags defs w decl vis (TLoop p) = (pipeline_diags defs w decl vis p, vis).
+Lemma loop_diags defs ldefs w decl vis p :
+  transform_diags defs ldefs w decl vis (TLoop p) = (pipeline_diags defs ldefs w decl vis p, vis).
 Proof.
   (* the nested fix of transform_diags and the top-level pipeline_diags are the same fixpoint *)
   reflexivity.
@@ -146,13 +146,13 @@ Qed.
 (* ------------------------------------------------------------------ the visibility check *)
 
 Section Check.
-  Variable defs : list cid.
+  Variable defs ldefs : list cid.
   Variable w : N.
   Variable decl : list tid.
 
-  Notation cu := (check_uses defs w).
-  Notation td := (transform_diags defs w decl).
-  Notation pd := (pipeline_diags defs w decl).
+  Notation cu := (check_uses defs ldefs w).
+  Notation td := (transform_diags defs ldefs w decl).
+  Notation pd := (pipeline_diags defs ldefs w decl).
 
   Definition sort_site (s : site) : bool := match s with STakeSort | SWinSort => true | _ => false end.
 
@@ -163,7 +163,8 @@ Section Check.
     unfold check_uses. induction cs as [|x cs IH]; cbn [flat_map]; intros H c []; subst.
     - rewrite forallb_app in H. apply andb_true_iff in H as [H _]. unfold check_use in H.
       destruct (memN c vis) eqn:E; [left; apply memN_In; exact E|].
-      destruct (memN c defs) eqn:F; cbn in H; [|discriminate].
+      destruct (memN c defs) eqn:F; [|cbn in H; discriminate].
+      destruct (memN c ldefs); cbn in H; [|discriminate].
       right. split; [apply memN_In; exact F|]. destruct s; cbn in *; congruence.
     - rewrite forallb_app in H. apply andb_true_iff in H as [_ H]. apply IH; assumption.
   Qed.
@@ -193,7 +194,7 @@ Section Check.
   Qed.
 
   Lemma window_lax vis ow :
-    incl vis defs -> forallb lax_diag (window_diags defs w vis ow) = true -> incl (window_cids ow) defs.
+    incl vis defs -> forallb lax_diag (window_diags defs ldefs w vis ow) = true -> incl (window_cids ow) defs.
   Proof.
     intros Hv. destruct ow as [x|]; cbn [window_diags window_cids]; [|intros _ ? []].
     rewrite !forallb_app. intro H. apply andb_true_iff in H as [H1 H]. apply andb_true_iff in H as [H2 H3].
@@ -272,7 +273,7 @@ Section Check.
 
   Lemma relation_ok r :
     incl (relation_defs r) defs ->
-    forallb lax_diag (relation_diags defs w decl r) = true ->
+    forallb lax_diag (relation_diags defs ldefs w decl r) = true ->
     incl (relation_uses r) defs /\ incl (relation_trefs r) decl.
   Proof.
     unfold relation_defs, relation_diags, relation_uses, relation_trefs.
@@ -318,7 +319,7 @@ Proof.
   induction ts as [|t ts IH]; intros i decl Hd Hl; cbn [flat_map map]; [split; intros ? []|].
   cbn [tables_diags] in Hl. rewrite forallb_app in Hl. apply andb_true_iff in Hl as [H1 H2].
   cbn [flat_map] in Hd. apply incl_app_inv in Hd as [Hd1 Hd2].
-  destruct (relation_ok defs i decl _ Hd1 H1) as [Hu Ht].
+  destruct (relation_ok defs _ i decl _ Hd1 H1) as [Hu Ht].
   destruct (IH _ _ Hd2 H2) as [Hu' Ht'].
   split; apply incl_app; try assumption.
   - intros x Hx. apply in_or_app. left. apply Ht; exact Hx.
@@ -336,7 +337,7 @@ Proof.
   cbn [tables_diags] in Hl. rewrite forallb_app in Hl. apply andb_true_iff in Hl as [H1 H2].
   cbn [flat_map] in Hd. apply incl_app_inv in Hd as [Hd1 Hd2].
   destruct k as [|k]; cbn [nth_error] in Hk.
-  - injection Hk as <-. cbn [firstn]. rewrite app_nil_r. apply (relation_ok defs i decl _ Hd1 H1).
+  - injection Hk as <-. cbn [firstn]. rewrite app_nil_r. apply (relation_ok defs _ i decl _ Hd1 H1).
   - cbn [map firstn]. specialize (IH _ _ Hd2 H2 k t Hk). intros x Hx. apply IH in Hx.
     rewrite <- app_assoc in Hx. exact Hx.
 Qed.
@@ -365,7 +366,7 @@ Proof.
   assert (incl (relation_defs (q_relation q)) (all_defs q)) as Hd2
     by (unfold all_defs; apply incl_appr, incl_refl).
   destruct (tables_ok _ _ _ _ Hd1 H3) as [Hu Ht].
-  destruct (relation_ok _ _ _ _ Hd2 H4) as [Hu' Ht'].
+  destruct (relation_ok _ _ _ _ _ Hd2 H4) as [Hu' Ht'].
   constructor.
   - intros c Hc. unfold lookup_cid.
     assert (In c (all_defs q)) as Hin.
@@ -419,7 +420,7 @@ Definition pipeline_shape (r : relation) : Prop :=
   forall p, r_kind r = KPipeline p ->
   (exists tr p', p = TFrom tr :: p') /\ (exists p' cs, p = p' ++ [TSelect cs] /\ length cs = length (r_columns r)).
 
-Lemma relation_shape defs w decl r : forallb lax_diag (relation_diags defs w decl r) = true -> pipeline_shape r.
+Lemma relation_shape defs ldefs w decl r : forallb lax_diag (relation_diags defs ldefs w decl r) = true -> pipeline_shape r.
 Proof.
   unfold relation_diags, pipeline_shape. intros H p E. rewrite E in H.
   rewrite !forallb_app in H. apply andb_true_iff in H as [_ H]. apply andb_true_iff in H as [H1 H2].
@@ -445,19 +446,19 @@ Qed.
 
 (* strict clause 2 for one pipeline: with no diagnostic at all, every use is visible where it occurs; stated for
    the transforms of a top-level pipeline (prefix p1, transform t): uses t ⊆ visible-after p1 *)
-Fixpoint vis_after (defs : list cid) (w : N) (decl : list tid) (vis : list cid) (p : list transform) : list cid :=
+Fixpoint vis_after (defs ldefs : list cid) (w : N) (decl : list tid) (vis : list cid) (p : list transform) : list cid :=
   match p with
   | [] => vis
-  | a :: p' => vis_after defs w decl (snd (transform_diags defs w decl vis a)) p'
+  | a :: p' => vis_after defs ldefs w decl (snd (transform_diags defs ldefs w decl vis a)) p'
   end.
 
-Lemma vis_after_indep defs w decl defs' w' decl' t : forall vis,
-  snd (transform_diags defs w decl vis t) = snd (transform_diags defs' w' decl' vis t).
+Lemma vis_after_indep defs ldefs w decl defs' ldefs' w' decl' t : forall vis,
+  snd (transform_diags defs ldefs w decl vis t) = snd (transform_diags defs' ldefs' w' decl' vis t).
 Proof. destruct t; reflexivity. Qed.
 
-Lemma pipeline_diags_app defs w decl p1 p2 : forall vis,
-  pipeline_diags defs w decl vis (p1 ++ p2)
-  = pipeline_diags defs w decl vis p1 ++ pipeline_diags defs w decl (vis_after defs w decl vis p1) p2.
+Lemma pipeline_diags_app defs ldefs w decl p1 p2 : forall vis,
+  pipeline_diags defs ldefs w decl vis (p1 ++ p2)
+  = pipeline_diags defs ldefs w decl vis p1 ++ pipeline_diags defs ldefs w decl (vis_after defs ldefs w decl vis p1) p2.
 Proof.
   induction p1 as [|a p1 IH]; intro vis; cbn [app pipeline_diags vis_after]; [reflexivity|].
   rewrite IH, app_assoc. reflexivity.
@@ -466,13 +467,13 @@ Qed.
 Definition direct_uses (t : transform) : list cid :=
   match t with TLoop _ => [] | TJoin _ _ _ => [] | _ => transform_uses t end.
 
-Lemma strict_uses_visible defs w decl p1 t p2 vis :
-  pipeline_diags defs w decl vis (p1 ++ t :: p2) = [] ->
-  incl (direct_uses t) (vis_after defs w decl vis p1)
-  /\ (forall sd r f, t = TJoin sd r f -> incl (expr_cids f) (vis_after defs w decl vis p1 ++ tref_cids r)).
+Lemma strict_uses_visible defs ldefs w decl p1 t p2 vis :
+  pipeline_diags defs ldefs w decl vis (p1 ++ t :: p2) = [] ->
+  incl (direct_uses t) (vis_after defs ldefs w decl vis p1)
+  /\ (forall sd r f, t = TJoin sd r f -> incl (expr_cids f) (vis_after defs ldefs w decl vis p1 ++ tref_cids r)).
 Proof.
   rewrite pipeline_diags_app. intro H. apply app_eq_nil in H as [_ H]. cbn [pipeline_diags] in H.
-  apply app_eq_nil in H as [H _]. set (v := vis_after defs w decl vis p1) in *.
+  apply app_eq_nil in H as [H _]. set (v := vis_after defs ldefs w decl vis p1) in *.
   split.
   - destruct t; cbn [direct_uses transform_uses transform_diags fst] in *; try (intros ? []; fail).
     + apply app_eq_nil in H as [H1 H2]. apply incl_app; [eapply check_uses_nil; eassumption|].
